@@ -91,8 +91,12 @@ def gen_arena_script(rng, n):
             cmds.append("AZ %d" % (1 if rng.random() < 0.35 else 0))
         elif r < 0.96:
             cmds.append("AD %d %s" % (rng.randrange(2), hexs(rand_text(rng, rng.choice([0, 1, 7, 8, 9, 15, 16, 100, 1000, 3000]), True))))
-        elif r < 0.98:
+        elif r < 0.975:
             cmds.append("AG %s" % hexs(rand_text(rng, rng.choice([0, 1, 26, 27, 28, 29, 100]))))
+        elif r < 0.99:
+            # Arena::sformat: up to 511 characters here (the output of exactly 511 characters is the longest one for which the pinned
+            # code stays inside its 512-byte buffer); longer outputs are probed in a process of their own (see run)
+            cmds.append("AP %d %d" % (rng.choice([0, 1, 6, 7, 8, 100, 503, 509, 510, 511, rng.randrange(0, 512)]), rng.randrange(1000)))
         else:
             cmds.append("AS")
     cmds.append("AS")
@@ -197,6 +201,53 @@ def gen_hash_op(rng, state):
     return "H %d x" % k
 
 
+def gen_tree_probe_cmds(rng, count):
+    """translator-style probes of ArenaTree::_single_rotate / _double_rotate on explicit node graphs (any links, also shared or
+    cyclic ones: the primitives only follow the two or three links they name)"""
+    cmds = []
+    for _ in range(count):
+        n = rng.randrange(2, 8); dbl = rng.randrange(2); d = rng.randrange(2)
+        links = [[rng.randrange(0, n + 1), rng.randrange(0, n + 1), rng.randrange(2)] for _ in range(n)]
+        root = rng.randrange(1, n + 1)
+        # the links the primitives dereference must not be null: root.child(!dir); for a double rotation also that node's child(dir)
+        other = rng.choice([i for i in range(1, n + 1) if i != root] or [root])
+        links[root - 1][1 - d] = other          # child(!dir): index 0 = left = dir 0, so child(!d) is slot (1 - d)
+        if dbl:
+            third = rng.randrange(1, n + 1)
+            links[other - 1][d] = third         # child.child(dir)  (first rotation is around `other` with direction !dir: its child(dir) comes up)
+        cmds.append("TP %d %d %d %d %s" % (dbl, d, root, n, " ".join("%d,%d,%d" % tuple(x) for x in links)))
+    return cmds
+
+
+NAME_COLLISIONS = [(b"flvs3t", b"03jio1"), (b"y5u5tj", b"3k77e_"), (b"xvv3d5", b"hx8st5"), (b"zr7vc5", b"io3t2t")]   # equal Support::hash_string
+
+
+def gen_name_hash_script(rng, n):
+    """ArenaHash with NAME keys as CodeHolder uses it for named labels: hash = Support::hash_string(name), lookup by memcmp;
+    colliding names, names with zero bytes, the empty name, long names, names that differ in the last byte only"""
+    cmds = [new_session(rng)]
+    k = rng.randrange(2)
+    pool = [b"", b"a", b"b", b"main", b"L0", b"L1", b"loop", b"loop.", b"loop\x00", b"\x00", b"\x00\x00", bytes(range(256))]
+    for a, b in NAME_COLLISIONS:
+        pool += [a, b]
+    for _ in range(20):
+        pool.append(rand_text(rng, rng.randrange(1, 40), zero_ok=True))
+    for _ in range(n):
+        r = rng.random()
+        nm = rng.choice(pool) if rng.random() < 0.85 else rand_text(rng, rng.randrange(0, 300), zero_ok=True)
+        if r < 0.5:
+            cmds.append("H %d ni %s" % (k, hexs(nm)))
+        elif r < 0.85:
+            cmds.append("H %d ng %s" % (k, hexs(nm)))
+        elif r < 0.95:
+            cmds.append("H %d r %d" % (k, rng.randrange(1 << 20)))
+        elif r < 0.98:
+            cmds.append("H %d h %d" % (k, rng.randrange(0, 10)))
+        else:
+            cmds.append("H %d d" % k)
+    return cmds
+
+
 def gen_mixed_script(rng, n, tier, weights=(0.2, 0.45, 0.35)):
     cmds = [new_session(rng)]
     hstate = []
@@ -279,12 +330,34 @@ def gen_bitset_script(rng, n):
             cmds.append("K %s" % rng.choice(["ca", "fa"]))
         elif r < 0.94:
             cmds.append("K t %d" % rng.choice([0, 1, 63, 64, 65, rng.randrange(0, 300)]))
-        elif r < 0.96:
+        elif r < 0.945:
             cmds.append("K x")
-        elif r < 0.99:
+        elif r < 0.975:
+            # the other operand: K sw swaps the two bit sets, and_/and_not/or_/copy_from combine with it
+            cmds.append(rng.choice(["K sw", "K sw", "K and", "K andn", "K or", "K or", "K cp", "K cp"]))
+        elif r < 0.993:
             cmds.append("AR %d" % reusable_size(rng))
         else:
             cmds.append("AZ %d" % rng.randrange(2))
+    return cmds
+
+
+def gen_bitset2_script(rng, rounds):
+    """ArenaBitSet and_/and_not/or_/copy_from: two bit sets of different sizes (same word, different words, one empty), built by
+    resize/set/fill, swapped and combined; sizes around the word boundaries"""
+    cmds = [new_session(rng)]
+    def build():
+        out = ["K z %d %d" % (rng.choice([0, 1, 3, 63, 64, 65, 70, 127, 128, 129, 200, 1000]) if rng.random() < 0.7 else rng.randrange(0, 400), rng.randrange(2))]
+        for _ in range(rng.randrange(0, 8)):
+            out.append(rng.choice(["K s %d %d" % (rng.randrange(1 << 30), rng.randrange(2)), "K f %d %d" % (rng.randrange(1 << 30), rng.randrange(1 << 30)),
+                                   "K c %d %d" % (rng.randrange(1 << 30), rng.randrange(1 << 30)), "K a %d" % rng.randrange(2)]))
+        return out
+    for _ in range(rounds):
+        cmds += build(); cmds.append("K sw"); cmds += build()
+        for _ in range(rng.randrange(1, 5)):
+            cmds.append(rng.choice(["K and", "K andn", "K or", "K cp", "K sw"]))
+        if rng.random() < 0.15:
+            cmds.append(rng.choice(["K x", "AZ 0", "AZ 1", "AR %d" % reusable_size(rng)]))
     return cmds
 
 
@@ -448,6 +521,22 @@ def judge_range(cmd, ans):
     return None
 
 
+def judge_name_hash(cmd, ans):
+    """independent oracle for Support::hash_string on the names of the H .. ni/ng commands (big-integer Horner evaluation)"""
+    t = cmd.split()
+    m = re.search(r" hc=(\d+) ", " " + ans + " ")
+    if not m:
+        return None
+    data = bytes.fromhex(t[3]) if t[3] != "-" else b""
+    v = 0
+    for c in data:
+        v = v * 65599 + c
+    v &= 0xFFFFFFFF
+    if int(m.group(1)) != v:
+        return ("C18/hash/name-hash-differs-from-oracle", "Support::hash_string(%r) = %s, the polynomial sum c_i * 65599^(n-1-i) mod 2^32 is %d" % (data[:40], m.group(1), v))
+    return None
+
+
 def judge_bitvec(cmd, ans):
     """independent big-integer oracle for one bit-vector command; None = fine, else (key, text)"""
     t = cmd.split()
@@ -509,17 +598,21 @@ def gen_scripts(rng, tier):
         scripts.append(gen_mixed_script(rng, 400 if q else 1500, tier, weights=(0.05, 0.9, 0.05)))      # vector heavy
     for _ in range(8 if q else 60):
         scripts.append(gen_mixed_script(rng, 600 if q else 4000, tier, weights=(0.05, 0.05, 0.9)))      # hash heavy (several rehashes)
+    for _ in range(12 if q else 120):
+        scripts.append(gen_name_hash_script(rng, rng.choice([60, 200])))
     for _ in range(25 if q else 300):
         scripts.append(gen_tree_script(rng, rng.choice([60, 300, 800])))
     for _ in range(20 if q else 200):
         scripts.append(gen_list_pool_script(rng, rng.choice([60, 250])))
     for _ in range(25 if q else 250):
         scripts.append(gen_bitset_script(rng, rng.choice([40, 150, 400])))
+    for _ in range(12 if q else 120):
+        scripts.append(gen_bitset2_script(rng, rng.choice([5, 15])))
     for _ in range(25 if q else 300):
         scripts.append(gen_string_script(rng, 120))
     for _ in range(30 if q else 200):
         scripts.append(gen_string_fit_script(rng))
-    bv = gen_bitvec_cmds(rng, 6000 if q else 200000) + gen_range_cmds(rng, 3000 if q else 100000)
+    bv = gen_bitvec_cmds(rng, 6000 if q else 200000) + gen_range_cmds(rng, 3000 if q else 100000) + gen_tree_probe_cmds(rng, 2000 if q else 50000)
     for i in range(0, len(bv), 500):
         scripts.append(bv[i:i + 500])
     return scripts
@@ -611,16 +704,60 @@ def coverage_count(cov, prev, script, cmd, ans):
         prev[key] = n
 
 
+# ------------------------------------------------------------------ a small static library: only what the C18 harness links
+# (the harness #includes arenavector.cpp, arenahash.cpp and jitallocator.cpp itself); building all of asmjit takes minutes on a
+# loaded machine and is evicted from vlib's cache by every scratch-tree run. Keyed by the hash of every header/source of /repo.
+MINILIB_SOURCES = ["support/arena.cpp", "support/arenabitset.cpp", "support/arenalist.cpp", "support/arenatree.cpp", "support/support.cpp",
+                   "core/string.cpp", "core/globals.cpp", "core/virtmem.cpp", "core/osutils.cpp", "core/cpuinfo.cpp"]
+
+
+def build_minilib(ck, variant):
+    import subprocess, shutil
+    cxx, cflags, lflags = vlib.VARIANTS[variant]
+    flags = vlib.CXX_BASE + cflags
+    key = vlib.file_hash(vlib.repo_all_files(), extra="c18mini " + " ".join([cxx] + flags + MINILIB_SOURCES))[:16]
+    root = os.path.join(vlib.BUILD, "asmjit")
+    os.makedirs(root, exist_ok=True)
+    out = os.path.join(root, "c18mini-%s-%s" % (variant, key))
+    lib = os.path.join(out, "libasmjit_c18.a")
+    with vlib.Lock(os.path.join(root, "c18mini-" + variant + ".lock")):
+        if not os.path.exists(lib):
+            ck.log("building the C18 subset of asmjit (%s, %d files) from %s" % (variant, len(MINILIB_SOURCES), vlib.REPO))
+            tmp = out + ".tmp"
+            shutil.rmtree(tmp, ignore_errors=True)
+            os.makedirs(tmp)
+            procs = []
+            for rel in MINILIB_SOURCES:
+                src = os.path.join(vlib.REPO, "asmjit", rel)
+                obj = os.path.join(tmp, rel.replace("/", "_")[:-4] + ".o")
+                procs.append((src, obj, subprocess.Popen([cxx] + flags + ["-c", src, "-o", obj], stdout=subprocess.PIPE, stderr=subprocess.STDOUT)))
+            failed = []
+            for src, obj, pr in procs:
+                outp = pr.communicate()[0]
+                if pr.returncode != 0:
+                    failed.append((src, outp.decode(errors="replace")[-3000:]))
+            if failed:
+                raise RuntimeError("asmjit (C18 subset) build failed: %s" % failed[:2])
+            vlib.sh(["ar", "rcs", os.path.join(tmp, "libasmjit_c18.a")] + [pr[1] for pr in procs], check=True)
+            os.rename(tmp, out)
+            import glob as _g
+            olds = sorted(_g.glob(os.path.join(root, "c18mini-" + variant + "-*")), key=os.path.getmtime)
+            for d in olds[:-3]:
+                if d != out and not d.endswith(".tmp"):
+                    shutil.rmtree(d, ignore_errors=True)
+    return {"lib": lib, "cxx": cxx, "cflags": flags, "lflags": lflags, "key": key, "variant": variant}
+
+
 def kind_of(cmd):
     c = cmd.split()[0]
-    return {"N": "arena", "AO": "arena", "AR": "arena", "AF": "arena", "AZ": "arena", "AS": "arena", "AD": "arena", "AG": "arena", "V": "vector", "H": "hash",
-            "S": "string", "B": "bitvec", "R": "bitvec", "T": "tree", "L": "list", "P": "pool", "K": "bitset", "X1": "vector", "X2": "vector"}.get(c, "other")
+    return {"N": "arena", "AO": "arena", "AR": "arena", "AF": "arena", "AZ": "arena", "AS": "arena", "AD": "arena", "AG": "arena", "AP": "arena", "V": "vector", "H": "hash",
+            "S": "string", "B": "bitvec", "R": "bitvec", "T": "tree", "TP": "tree", "L": "list", "P": "pool", "K": "bitset", "X1": "vector", "X2": "vector"}.get(c, "other")
 
 
 def run(ck):
     rng = random.Random(ck.seed)
     # ---- build + translator tie
-    lib_plain = ck.build_lib("plain")
+    lib_plain = build_minilib(ck, "plain")
     plain = ck.build_harness("c18", ["c18_harness.cpp"], variant="plain", lib=lib_plain)
     rc, ttext, terr = vlib.sh([plain, "tables"], timeout=120)
     if "\nconsts " not in ttext:
@@ -670,7 +807,7 @@ def run(ck):
     if bad:
         raise RuntimeError("model files do not compile: %s %s" % (bad, getattr(ck, "coq_log", "")[-1500:]))
     model = ck.ocaml_model("Extract_Containers.v", ["zconv.ml", "c18_driver.ml"], name="c18", gen_dir=gen_dir)
-    impl = ck.build_harness("c18", ["c18_harness.cpp"], variant="asan")
+    impl = ck.build_harness("c18", ["c18_harness.cpp"], variant="asan", lib=build_minilib(ck, "asan"))
 
     if ck.replay:
         rp = json.load(open(ck.replay))["replay"]
@@ -735,6 +872,10 @@ def run(ck):
                         coverage_count(cov, prev_state, i, cmd, xs)
                     except Exception:
                         pass
+                    if k == "hash" and len(cmd.split()) > 3 and cmd.split()[2] in ("ni", "ng"):
+                        jr = judge_name_hash(cmd, xs)
+                        if jr is not None:
+                            ck.violation(jr[0], jr[1], {"command": cmd, "script": s[:j + 1], "impl": x, "model": y, "variant": "asan"})
                     if k == "bitvec":
                         judged += 1
                         jr = judge_range(cmd, xs) if cmd.startswith("R ") else judge_bitvec(cmd, xs)
@@ -798,6 +939,29 @@ def run(ck):
                     disagreements += 1
                     ck.violation("C18/correspondence/vector-4g", "implementation %r, model %r at %r" % (xs, y, c), {"script": [c], "variant": "plain", "broken": "reserve_shape"}, no_input=True)
             nontrivial.add(("vector", c))
+
+    # Arena::sformat with an output that does not fit its 512-byte stack buffer: one process per probe (AddressSanitizer stops it
+    # at the out-of-bounds store of the pinned code)
+    if not ck.replay:
+        for n in (512, 600, 5000):
+            script = ["N 4096 0", "AP %d 5" % n]
+            env2 = dict(os.environ); env2["ASAN_OPTIONS"] = "allocator_may_return_null=1:max_allocation_size_mb=%d" % MALLOC_LIMIT_MB
+            rci, li, ei = run_exe(impl, [], [script], env=env2)
+            rcm, lm, em = run_exe(model, [str(MALLOC_LIMIT)], [script], big_stack=True)
+            kinds["arena"] = kinds.get("arena", 0) + 1
+            if len(li) < 2 or "ERROR: AddressSanitizer" in ei:
+                m = re.search(r"ERROR: AddressSanitizer: (\S+)", ei)
+                ck.violation("C18/arena/sformat-overflows-stack-buffer", "Arena::sformat(\"%%s\", <%d characters>) stopped the process: %s (the pinned code "
+                             "uses the return value of vsnprintf, the length of the COMPLETE output, as index into char buf[512])" % (n, m.group(1) if m else ei[-300:]),
+                             {"script": script, "variant": "asan", "command": script[1]})
+            else:
+                x = DEFECT_RE.sub("", li[1]); flags2 = DEFECT_RE.findall(li[1])
+                for key in flags2:
+                    ck.violation(key, "monitor %s fired at %r: %r" % (key, script[1], x[:200]), {"script": script, "variant": "asan"})
+                if not flags2 and (len(lm) < 2 or x != lm[1]):
+                    ck.violation("C18/correspondence/arena-sformat", "implementation %r, model %r at %r" % (x[:200], (lm[1] if len(lm) > 1 else "<none>")[:200], script[1]),
+                                 {"script": script, "variant": "asan", "broken": "ArenaModel.arena_sformat"}, no_input=True)
+            nontrivial.add(("arena", script[1]))
 
     for f, log in table_failures:
         ck.violation("C18/tables/" + f, "the table re-extracted from /repo no longer satisfies the reflection lemmas of %s: %s" % (f, log[-800:]),
